@@ -284,6 +284,10 @@ func (m *c27Monitor) onExit(depth int, output []byte, gasUsed uint64, err error,
 			// ways the step trace does not itemise: bound from above only.
 			if left > after+m.slack {
 				m.bad("frame depth %d (%s) err=%v returned %d gas but only %d (+%d spill) were left after its last step", depth, ep.OpName(f.typ), err, left, after, m.slack)
+			} else if left < after {
+				// code deposit: hash cost plus state gas spilled into execution gas; the
+				// spilled part comes back if an enclosing frame reverts
+				m.slack += after - left
 			}
 		case left != want:
 			m.bad("frame depth %d (%s) err=%v: returned %d gas, trace says %d were left (last step pc=%d %s gas=%d cost=%d, output %d bytes)",
@@ -446,7 +450,7 @@ func c27DrawFork(rt *rapid.T) ep.Fork {
 	for _, w := range c27ForkWeights {
 		total += w
 	}
-	r := rapid.IntRange(0, total-1).Draw(rt, "fork")
+	r := ep.Uniform(rt, "fork", total)
 	for i, w := range c27ForkWeights {
 		if r < w {
 			return ep.AllForks[i]
@@ -461,7 +465,7 @@ var c27HugeGas = []uint64{1 << 40, 1<<63 - 1, 1 << 63, 1<<64 - 1}
 
 func c27DrawCase(rt *rapid.T) *c27Case {
 	cs := &c27Case{fork: c27DrawFork(rt)}
-	huge := rapid.IntRange(0, 99).Draw(rt, "huge-gas") < 12
+	huge := ep.Uniform(rt, "huge-gas", 99+1) < 12
 	wc := ep.WorldConfig{Fork: cs.fork, RawEntryPct: 12, MaxContracts: 4}
 	wc.Gen.Bounded = huge
 	w, err := ep.DrawWorld(rt, wc)
@@ -469,37 +473,37 @@ func c27DrawCase(rt *rapid.T) *c27Case {
 		rt.Fatalf("VERIF-HARNESS-BUG: evmprog: %v", err)
 	}
 	cs.world = w
-	cs.create = rapid.IntRange(0, 99).Draw(rt, "entry-create") < 20
+	cs.create = ep.Uniform(rt, "entry-create", 99+1) < 20
 	switch {
 	case huge:
-		cs.gas = c27HugeGas[rapid.IntRange(0, len(c27HugeGas)-1).Draw(rt, "gas")]
+		cs.gas = c27HugeGas[ep.Uniform(rt, "gas", len(c27HugeGas))]
 		cs.gasClass = "huge"
 	default:
-		switch rapid.IntRange(0, 9).Draw(rt, "gas-class") {
-		case 0, 1, 2, 3, 4:
-			cs.gas = c27GasPool[rapid.IntRange(0, len(c27GasPool)-1).Draw(rt, "gas")]
+		switch gc := ep.Uniform(rt, "gas-class", 20); {
+		case gc < 6:
+			cs.gas = c27GasPool[ep.Uniform(rt, "gas", len(c27GasPool))]
 			cs.gasClass = "pool"
-		case 5, 6, 7:
-			cs.gas = uint64(rapid.IntRange(0, 200_000).Draw(rt, "gas"))
+		case gc < 13:
+			cs.gas = uint64(ep.Uniform(rt, "gas", 200000+1))
 			cs.gasClass = "uniform200k"
-		case 8:
-			cs.gas = uint64(rapid.IntRange(200_000, 3_000_000).Draw(rt, "gas"))
+		case gc < 19:
+			cs.gas = uint64(200000 + ep.Uniform(rt, "gas", 3000000-200000+1))
 			cs.gasClass = "uniform3M"
 		default:
-			cs.gas = []uint64{5_000_000, params.MaxTxGas - 1, params.MaxTxGas, params.MaxTxGas + 1, 30_000_000}[rapid.IntRange(0, 4).Draw(rt, "gas")]
+			cs.gas = []uint64{5_000_000, params.MaxTxGas - 1, params.MaxTxGas, params.MaxTxGas + 1, 30_000_000}[ep.Uniform(rt, "gas", 4+1)]
 			cs.gasClass = "tx-limit"
 		}
 	}
 	if cs.fork >= ep.Amsterdam {
-		cs.resv = []uint64{0, 0, 1, 1000, 183_600, 200_000, 10_000_000}[rapid.IntRange(0, 6).Draw(rt, "reservoir")]
+		cs.resv = []uint64{0, 0, 1, 1000, 183_600, 200_000, 10_000_000}[ep.Uniform(rt, "reservoir", 6+1)]
 		if huge {
-			cs.resv = []uint64{0, 1 << 40, 1<<63 - 1}[rapid.IntRange(0, 2).Draw(rt, "reservoir-huge")]
+			cs.resv = []uint64{0, 1 << 40, 1<<63 - 1}[ep.Uniform(rt, "reservoir-huge", 2+1)]
 			if cs.gas > 1<<63 { // keep exec+state within uint64
 				cs.gas = 1 << 63
 			}
 		}
 	}
-	switch rapid.IntRange(0, 9).Draw(rt, "value") {
+	switch ep.Uniform(rt, "value", 9+1) {
 	case 0, 1:
 		cs.value = uint256.NewInt(1)
 	case 2:
@@ -513,18 +517,18 @@ func c27DrawCase(rt *rapid.T) *c27Case {
 		cs.value = uint256.NewInt(1)
 	}
 	cs.input = rapid.SliceOfN(rapid.Byte(), 0, 160).Draw(rt, "calldata")
-	cs.pre = evmx.Pre{ContractBalance: uint64(rapid.SampledFrom([]int{0, 1, 1000, 1_000_000}).Draw(rt, "contract-balance")), EOABalance: 5}
+	cs.pre = evmx.Pre{ContractBalance: []uint64{0, 1, 1000, 1_000_000}[ep.Uniform(rt, "contract-balance", 4)], EOABalance: 5}
 	cs.pre.Storage = map[int]map[common.Hash]common.Hash{}
 	slots := []common.Hash{{}, {31: 1}, {31: 2}, common.BytesToHash(bytes.Repeat([]byte{0xff}, 32))}
 	for i := range w.Contracts {
-		n := rapid.IntRange(0, 2).Draw(rt, "prestorage-n")
+		n := ep.Uniform(rt, "prestorage-n", 2+1)
 		if n == 0 {
 			continue
 		}
 		cs.pre.Storage[i] = map[common.Hash]common.Hash{}
 		for j := 0; j < n; j++ {
-			k := slots[rapid.IntRange(0, len(slots)-1).Draw(rt, "prestorage-slot")]
-			cs.pre.Storage[i][k] = common.Hash{31: byte(rapid.IntRange(1, 2).Draw(rt, "prestorage-val"))}
+			k := slots[ep.Uniform(rt, "prestorage-slot", len(slots))]
+			cs.pre.Storage[i][k] = common.Hash{31: byte(1 + ep.Uniform(rt, "prestorage-val", 2-1+1))}
 		}
 	}
 	return cs
@@ -753,7 +757,7 @@ func TestVerifC27Api(t *testing.T) {
 			err  error
 			ret  []byte
 			pan  string
-			kind = rapid.IntRange(0, 2).Draw(rt, "api")
+			kind = ep.Uniform(rt, "api", 2+1)
 		)
 		func() {
 			defer func() {
